@@ -161,6 +161,15 @@ func Evaluate(s sink.Sink, prop string, r *scen.Run, completed, sample bool) {
 			}
 			s.Count("scenarios_with_nested_sub_channel", 1)
 		}
+		var secondLast *channel.State
+		if subOpen && r.SecondCh[0] != nil {
+			secondLast = r.LastAgreed(r.SecondCh[0].ID())
+			if secondLast == nil {
+				problems = append(problems, "no state of the second sub-channel was enabled by both parties")
+				break
+			}
+			s.Count("scenarios_with_two_open_sub_channels", 1)
+		}
 		for a := 0; a < sc.Assets; a++ {
 			total := new(big.Int)
 			for i := 0; i < 2; i++ {
@@ -178,6 +187,9 @@ func Evaluate(s sink.Sink, prop string, r *scen.Run, completed, sample bool) {
 				}
 				if nestedLast != nil {
 					want.Add(want, nestedLast.Balances[a][i])
+				}
+				if secondLast != nil {
+					want.Add(want, secondLast.Balances[a][i])
 				}
 				got := r.Delta(i, a)
 				total.Add(total, got)
